@@ -263,7 +263,26 @@ func TestC20Child(t *testing.T) {
 	}
 }
 
+// c20FreePort hands out loopback ports from a range of this shard's own (so
+// that parallel shards do not race for the same "free" port), probing each.
+var c20NextPort int
+
 func c20FreePort() int {
+	shard := 0
+	if v := os.Getenv("VERIF_SHARD"); v != "" {
+		_, _ = fmt.Sscanf(v, "%d/", &shard)
+	}
+	base, span := 20000+(shard%16)*2000+(os.Getpid()%4)*500, 500
+	for tries := 0; tries < span; tries++ {
+		port := base + c20NextPort%span
+		c20NextPort++
+		l, err := net.Listen("tcp", fmt.Sprintf("127.0.0.1:%d", port))
+		if err != nil {
+			continue
+		}
+		l.Close()
+		return port
+	}
 	l, err := net.Listen("tcp", "127.0.0.1:0")
 	if err != nil {
 		return 0
@@ -371,6 +390,16 @@ func TestC20(t *testing.T) {
 		}
 		if res.Fatal != "" {
 			c.Fatalf("child could not run: %s", res.Fatal)
+		}
+		for _, cy := range res.Cycles {
+			for _, e := range []string{cy.NewErrA, cy.NewErrB, cy.StartErrA, cy.StartErrB, cy.NewErrB2, cy.StartErrB2} {
+				if strings.Contains(e, "address already in use") {
+					// Somebody else on this machine took a port between probing and
+					// listening: nothing was learned about the router.
+					c.Class("inconclusive-port-taken")
+					return
+				}
+			}
 		}
 		if len(res.Cycles) != job.Cycles {
 			c.Fatalf("only %d of %d cycles completed: %+v", len(res.Cycles), job.Cycles, res.Cycles)
